@@ -347,6 +347,7 @@ pub fn c14(tier: Tier) -> i32 {
         );
     }
     real_receiver_pass(&mut rep, tier);
+    two_peer_pass(&mut rep, tier);
     let e = execs.load(Ordering::Relaxed);
     println!("  sender: executions={} (levels {:?}) operations={} distinct observations={}", e, levels, steps.load(Ordering::Relaxed), observations.lock().unwrap().len());
     rep.add("states", e);
@@ -626,4 +627,149 @@ pub fn real_receiver_pass(rep: &mut Report, tier: Tier) {
     rep.add("transitions", steps);
     rep.add("traces_validated_against_impl", seqs.len() as u64);
     rep.set("real_receiver_pass", json!({"executions": seqs.len(), "max_length": maxlen, "alphabet": "send, wire relays everything in flight, wire cut, refuse/accept connects, back-off timer, drop handle 0/1; at most 2 faults"}));
+}
+
+// ---------------------------------------------------------------------------------------------
+// Third pass: broadcast to two peers; handles are returned in the order of the addresses and each
+// must resolve with the reply of *its* peer to *its* message.
+// ---------------------------------------------------------------------------------------------
+
+#[derive(Clone, Copy, Debug, PartialEq, Eq, PartialOrd, Ord)]
+enum Op3 {
+    Bcast,
+    Serve(u8), // peer p reads and answers everything in flight on its live connection
+    Cut(u8),
+    Timer,
+}
+
+fn run3(seq: &[Op3]) -> Vec<(String, String)> {
+    let rt = Rt::new();
+    let addrs: Vec<SocketAddr> = vec!["127.0.0.1:7201".parse().unwrap(), "127.0.0.1:7202".parse().unwrap()];
+    let mut sender = rt.block_on(async { ReliableSender::new() });
+    let mut handles: BTreeMap<(u8, u8), CancelHandler> = BTreeMap::new(); // (message, peer)
+    let mut resolved: BTreeMap<(u8, u8), Vec<u8>> = BTreeMap::new();
+    let mut conns: Vec<Vec<Endpoint>> = vec![Vec::new(), Vec::new()];
+    let mut sent = 0u8;
+    let mut poll = |rt: &Rt, conns: &mut Vec<Vec<Endpoint>>| {
+        rt.quiesce();
+        simnet::enter(rt.ns);
+        for ep in simnet::take_outbound() {
+            let p = (ep.addr.port() - 7201) as usize;
+            if p < 2 {
+                conns[p].push(ep);
+            }
+        }
+    };
+    let serve = |rt: &Rt, conns: &Vec<Vec<Endpoint>>, p: usize| {
+        if let Some(ep) = conns[p].last() {
+            for f in ep.read_frames() {
+                let mut ans = format!("ack:{}:", p).into_bytes();
+                ans.extend_from_slice(&f);
+                ep.write_frame(&ans);
+            }
+        }
+        rt.quiesce();
+    };
+    for op in seq {
+        simnet::enter(rt.ns);
+        match op {
+            Op3::Bcast => {
+                if sent < 2 {
+                    let k = sent;
+                    sent += 1;
+                    let a = addrs.clone();
+                    let hs = rt.block_on(async { sender.broadcast(a, Bytes::from(vec![b'm', k])).await });
+                    for (p, h) in hs.into_iter().enumerate() {
+                        handles.insert((k, p as u8), h);
+                    }
+                }
+            }
+            Op3::Serve(p) => {
+                poll(&rt, &mut conns);
+                serve(&rt, &conns, *p as usize);
+            }
+            Op3::Cut(p) => {
+                poll(&rt, &mut conns);
+                if let Some(ep) = conns[*p as usize].last() {
+                    ep.close();
+                }
+            }
+            Op3::Timer => rt.advance(61_000),
+        }
+        poll(&rt, &mut conns);
+    }
+    for _ in 0..20 {
+        poll(&rt, &mut conns);
+        serve(&rt, &conns, 0);
+        serve(&rt, &conns, 1);
+        let keys: Vec<(u8, u8)> = handles.keys().cloned().collect();
+        for k in keys {
+            if let Ok(b) = handles.get_mut(&k).unwrap().try_recv() {
+                resolved.insert(k, b.to_vec());
+                handles.remove(&k);
+            }
+        }
+        if handles.is_empty() {
+            break;
+        }
+        rt.advance(61_000);
+    }
+    let mut bad = Vec::new();
+    for k in 0..sent {
+        for p in 0..2u8 {
+            let want = [format!("ack:{}:", p).into_bytes(), vec![b'm', k]].concat();
+            match resolved.get(&(k, p)) {
+                Some(v) if *v == want => {}
+                Some(v) => bad.push(("broadcast-wrong-handle".to_string(), format!("the handle for message {} to peer {} resolved with {:?}", k, p, String::from_utf8_lossy(v)))),
+                None => bad.push(("broadcast-unresolved".to_string(), format!("the handle for message {} to peer {} never resolved", k, p))),
+            }
+        }
+    }
+    for p in rt.panics() {
+        bad.push(("panic".to_string(), p));
+    }
+    bad
+}
+
+pub fn two_peer_pass(rep: &mut Report, tier: Tier) {
+    let alphabet = [Op3::Bcast, Op3::Serve(0), Op3::Serve(1), Op3::Cut(0), Op3::Cut(1), Op3::Timer];
+    let maxlen = tier.pick(5usize, 6usize);
+    let mut seqs: Vec<Vec<Op3>> = Vec::new();
+    fn rec(len: usize, a: &[Op3], cur: &mut Vec<Op3>, out: &mut Vec<Vec<Op3>>) {
+        if !cur.is_empty() {
+            out.push(cur.clone());
+        }
+        if cur.len() == len {
+            return;
+        }
+        for e in a {
+            if *e == Op3::Bcast && cur.iter().filter(|o| **o == Op3::Bcast).count() >= 2 {
+                continue;
+            }
+            if *e != Op3::Bcast && !cur.contains(&Op3::Bcast) {
+                continue;
+            }
+            cur.push(*e);
+            rec(len, a, cur, out);
+            cur.pop();
+        }
+    }
+    rec(maxlen, &alphabet, &mut Vec::new(), &mut seqs);
+    let results = crate::util::par_map(seqs.len(), ncpu(), |i| run3(&seqs[i]));
+    let mut best: BTreeMap<String, (usize, String)> = BTreeMap::new();
+    for (i, bad) in results.into_iter().enumerate() {
+        for (sig, what) in bad {
+            if best.get(&sig).map_or(true, |b| seqs[i].len() < seqs[b.0].len()) {
+                best.insert(sig, (i, what));
+            }
+        }
+    }
+    for (sig, (i, what)) in &best {
+        rep.violation(format!("sender:{}", sig), format!("[broadcast to two peers, ops {:?}] {}", seqs[*i], what), json!({"engine":"seq-sender","pass":"two-peers","ops3":seqs[*i].iter().map(|o| format!("{:?}", o)).collect::<Vec<_>>()}));
+    }
+    println!("  sender broadcast to two peers: executions={}", seqs.len());
+    rep.add("states", seqs.len() as u64);
+    rep.add("transitions", seqs.iter().map(|s| s.len() as u64).sum());
+    rep.add("traces_validated_against_impl", seqs.len() as u64);
+    rep.set("two_peer_pass", json!({"executions": seqs.len(), "max_length": maxlen, "alphabet": "broadcast (2 messages), peer p serves everything in flight, cut p, back-off timer"}));
 }
